@@ -55,7 +55,10 @@ def opOfJson (j : Json) : Except String Op := do
   match ← jstr j "op" with
   | "new" => pure (.new t (← jnat j "c") (joptNat j "parent"))
   | "enter" => pure (.enter t (← jnat j "c"))
-  | "exit" => pure (.exit t (← jnat j "c") (← blockEndOfJson (← j.getObjVal? "end")))
+  | "exit" =>
+    match joptNat j "cancelAt" with
+    | none => pure (.exit t (← jnat j "c") (← blockEndOfJson (← j.getObjVal? "end")))
+    | some k => pure (.exitMid t (← jnat j "c") (← blockEndOfJson (← j.getObjVal? "end")) k)
   | "add" =>
     let td ← match jopt j "td" with
       | none => pure none
